@@ -1,0 +1,43 @@
+//go:build verif
+
+package config
+
+// Contracts for package config (comment-only; read by /verif/govc).
+
+// ---- C14: legacy-key classification (README: classic keys are 32 hex chars, or hc[a-z]ic_ + 58 lowercase alphanumerics)
+
+//@ spec isHexLower(c byte) bool := (c >= '0' && c <= '9') || (c >= 'a' && c <= 'f')
+//@ spec isAlnumLower(c byte) bool := (c >= '0' && c <= '9') || (c >= 'a' && c <= 'z')
+//@ spec legacyClassic(key string) bool := len(key) == 32 && (forall j int :: 0 <= j && j < 32 ==> isHexLower(key[j]))
+//@ spec legacyIngest(key string) bool := len(key) == 64 && key[0] == 'h' && key[1] == 'c' && key[2] >= 'a' && key[2] <= 'z' && key[3] == 'i' && key[4] == 'c' && key[5] == '_' && (forall j int :: 6 <= j && j < 64 ==> isAlnumLower(key[j]))
+
+//@ contract config.IsLegacyAPIKey props C14,C28
+//@   ensures[classify] result == (legacyClassic(key) || legacyIngest(key))
+//@   loop 1 invariant 0 <= i && i <= keyLen && keyLen == 32 && (forall j int :: 0 <= j && j < i ==> isHexLower(key[j]))
+//@   loop 2 invariant 6 <= i && i <= keyLen && keyLen == 64 && (forall j int :: 6 <= j && j < i ==> isAlnumLower(key[j]))
+//@   modifies nothing
+
+// ---- C24: ingest authorization and key replacement.
+// Oracle: refinery_config.md (AcceptOnlyListedKeys "is applied **before** the SendKey
+// and SendKeyMode settings"; the SendKeyMode option list) and the property statement.
+
+//@ spec keyListed(a AccessKeyConfig, key string, keyID string) bool := slices.Contains(a.ReceiveKeys, key) || (keyID != "" && slices.Contains(a.ReceiveKeyIDs, keyID))
+//@ spec keyAccepted(a AccessKeyConfig, key string, keyID string) bool := !a.AcceptOnlyListedKeys || (a.SendKey != "" && key == a.SendKey) || keyListed(a, key, keyID)
+//@ spec keyReplaced(a AccessKeyConfig, key string, keyID string) string := ite(a.SendKey == "", key, ite(a.SendKeyMode == "all", a.SendKey, ite(a.SendKeyMode == "nonblank", ite(key != "", a.SendKey, key), ite(a.SendKeyMode == "listedonly", ite(keyListed(a, key, keyID), a.SendKey, key), ite(a.SendKeyMode == "missingonly", ite(key == "", a.SendKey, key), ite(a.SendKeyMode == "unlisted", ite(key != "" && !keyListed(a, key, keyID), a.SendKey, key), key))))))
+
+//@ contract config.(*AccessKeyConfig).IsAccepted props C24
+//@   requires a != nil
+//@   ensures[accepted-iff] (result == nil) == keyAccepted(*a, key, keyID)
+//@   modifies nothing
+
+//@ contract config.(*AccessKeyConfig).GetReplaceKey props C24
+//@   requires a != nil
+//@   ensures[table] result1 == nil ==> result0 == keyReplaced(*a, apiKey, keyID)
+//@   ensures[never-blank] (result1 == nil) == (keyReplaced(*a, apiKey, keyID) != "")
+//@   ensures[no-key-on-error] result1 != nil ==> result0 == ""
+//@   modifies nothing
+
+//@ contract config.(*AccessKeyConfig).HasKeyIDs props C24
+//@   requires a != nil
+//@   ensures result == (len(a.ReceiveKeyIDs) > 0)
+//@   modifies nothing
